@@ -102,6 +102,12 @@ func main() {
 	for _, st := range fn.Body.List {
 		ifs, ok := st.(*ast.IfStmt)
 		if !ok {
+			// fail closed: a statement outside the predicate branches must not validate, apply, delete or sync
+			var stray []string
+			collect(st, recvName, 0, &stray)
+			if len(stray) > 0 {
+				fail("action %v outside a fork-choice branch at %v", stray, fset.Position(st.Pos()))
+			}
 			continue
 		}
 		if ifs.Else != nil {
@@ -111,6 +117,11 @@ func main() {
 		if !ok {
 			if be, ok := ifs.Cond.(*ast.BinaryExpr); ok {
 				if id, ok := be.X.(*ast.Ident); ok && id.Name == "err" {
+					var stray []string
+					collect(ifs, recvName, 0, &stray)
+					if len(stray) > 0 {
+						fail("action %v under an error test outside a fork-choice branch at %v", stray, fset.Position(ifs.Pos()))
+					}
 					continue
 				}
 			}
